@@ -357,10 +357,26 @@ def labelCells : List Sk → Nat → List LCell
   | c :: cs, k => labelCell c k :: labelCells cs (k + 1)
 end
 
+mutual
+/-- every ring length of the skeleton fits a machine word (it is a `u64` in the compiler) -/
+def SkFits : Sk → Prop
+  | .delay n => n < 2 ^ 64
+  | .mem _ => True
+  | .feed _ => True
+  | .fn cs => SkFitsL cs
+def SkFitsL : List Sk → Prop
+  | [] => True
+  | c :: cs => SkFits c ∧ SkFitsL cs
+end
+
 /-- a labelled layout for a published skeleton (sites := child indices) -/
 def ofSk : Sk → LNode
   | .fn (.feed s :: rest) => ⟨some (shapeOfSize s), labelCells rest 0⟩
   | .fn cs => ⟨none, labelCells cs 0⟩
   | _ => ⟨none, []⟩
+
+/-- the words of a region of a storage whose words are kept as naturals (`Model/StateTree.lean`: `applyPatches`) -/
+def wordsAt (l : List Nat) (off size : Nat) : List UInt64 :=
+  (List.range size).map fun w => (l.getD (off + w) 0).toUInt64
 
 end Mimium.FlatTree
